@@ -426,7 +426,7 @@ pub fn check() -> PropertyCheck {
             }),
             Box::new(Pbt {
                 name: "field-pbt",
-                quick: 200_000,
+                quick: 1_000_000,
                 thorough: 20_000_000,
                 strat: pbt_strat,
                 test: pbt_test,
